@@ -46,25 +46,30 @@ DeleteRollupFile); `NextFileNumber` is applied by `jSnap` -/
 structure Edit where
   dels : List (Nat × Nat) := []     -- (level, file number)
   adds : List FileMeta := []
-  rollAdd : List Nat := []
-  rollDel : List Nat := []
+  rollAdd : List (Nat × Nat) := []   -- NewRollupFile(file, target interval)
+  rollDel : List (Nat × Nat) := []   -- DeleteRollupFile(file, target interval)
 deriving Repr, Inhabited
 
 def Edit.isEmpty (e : Edit) : Bool :=
   e.dels.isEmpty && e.adds.isEmpty && e.rollAdd.isEmpty && e.rollDel.isEmpty
 
-/-- `version`: level files + rollup marks (immutable once installed) -/
+/-- `version`: level files + rollup marks (immutable once installed). A mark is a pair
+(file, target interval): `version.rollupFiles : map[FileNumber][]Interval` — one pending rollup of
+that file into that target interval. -/
 structure VData where
   files : List FileMeta := []
-  rollup : List Nat := []
+  rollup : List (Nat × Nat) := []
 deriving Repr, Inhabited
 
 def VData.nos (v : VData) : List Nat := v.files.map (·.no)
 
+/-- keys of `version.GetRollupFiles()`: the files that carry a mark for at least one interval -/
+def VData.rollupFiles (v : VData) : List Nat := v.rollup.map (·.1)
+
 /-- `version.Clone()` followed by `editLog.apply(newVersion)` (deletes are logged first) -/
 def applyEdit (v : VData) (e : Edit) : VData :=
   { files := v.files.filter (fun m => !(e.dels.contains (m.level, m.no))) ++ e.adds
-    rollup := v.rollup.filter (fun f => !(e.rollDel.contains f)) ++ e.rollAdd }
+    rollup := v.rollup.filter (fun p => !(e.rollDel.contains p)) ++ e.rollAdd }
 
 /-- table content: ascending keys, each with the (sorted) list of value tokens -/
 abbrev Content := List (Nat × List Nat)
@@ -127,7 +132,7 @@ structure Snap where
   owner : Option Nat := none     -- job that took it (none: a reader thread)
 deriving Repr, Inhabited
 
-inductive JKind | flush | compact | rollupDone | delObs
+inductive JKind | flush | compact | rollupDone | delObs | rollupJob
 deriving DecidableEq, Repr, Inhabited
 
 inductive Pc
@@ -143,7 +148,8 @@ deriving DecidableEq, Repr, Inhabited
 structure Job where
   kind : JKind := .delObs
   pc : Pc := .done
-  payload : Content := []         -- flush: what is written; rollupDone: keys = file numbers
+  payload : Content := []         -- flush: what is written; rollupDone: (file, intervals) whose DeleteRollupFile
+                                  --   records are committed; rollupJob: keys = target intervals that succeed
   snap : Nat := 0                 -- compaction: its own snapshot
   inputs : List FileMeta := []    -- compaction inputs (level 0 then level 1)
   trivial : Bool := false
@@ -170,7 +176,9 @@ structure Cfg where
   getReaderAtomic : Bool := true -- storeCache.GetReader looks up, opens and retains in ONE critical section
   listFirst : Bool := true   -- family.deleteObsoleteFiles lists the directory BEFORE it collects the live set
   threshold : Nat := 2    -- FamilyOption.CompactThreshold
-  rollupOn : Bool := false -- StoreOption.Rollup non-empty: a flush marks its output for rollup
+  targets : List Nat := [] -- StoreOption.Rollup: a flush marks its output for rollup into each of these intervals
+  rollDelPerInterval : Bool := true -- family.rollup adds DeleteRollupFile(file, targetInterval) inside the per-target
+                                    --   loop, after that target's doRollupWork succeeded, with THAT interval
   /-- the family's merger (kv.Merger): what a compaction writes for the contents of its inputs.
   Abstract: theorems about content across a compaction assume only the contract `MergerOk`
   (Lemmas/C02Tokens.lean); the harness' merger is `mergeContent`. -/
@@ -274,12 +282,15 @@ def jAllocU (s : St) (j : Nat) (c : Content) (level : Nat) : St :=
 
 def createFiles (s : St) (fs : List Nat) : St := { s with disk := fs ++ s.disk }
 
+/-- `storeFlusher.Commit`: `NewRollupFile(output, interval)` for every interval of `StoreOption.Rollup` -/
+def flushMarks (cfg : Cfg) (b : Job) : List (Nat × Nat) := (outNo b).flatMap (fun f => cfg.targets.map (fun iv => (f, iv)))
+
 /-- `table.NewStoreBuilder`: the table file appears in the directory. For a compaction the edit
 log (`MarkInputDeletes` + `AddFile(level+1, output)`) is local data. -/
 def jCreate (cfg : Cfg) (s : St) (j : Nat) : St :=
   let b := s.job j
   let e : Edit := match b.kind with
-    | .flush => { adds := b.out.toList, rollAdd := if cfg.rollupOn then outNo b else [] }
+    | .flush => { adds := b.out.toList, rollAdd := flushMarks cfg b }
     | _ => { dels := b.inputs.map (fun m => (m.level, m.no)), adds := b.out.toList }
   (createFiles s (outNo b)).setJob j { b with edit := e, pc := .ready }
 
@@ -291,9 +302,37 @@ def jCreateU (s : St) (j : Nat) : St :=
 def jPendU (cfg : Cfg) (s : St) (j : Nat) : St :=
   let b := s.job j
   let e : Edit := match b.kind with
-    | .flush => { adds := b.out.toList, rollAdd := if cfg.rollupOn then outNo b else [] }
+    | .flush => { adds := b.out.toList, rollAdd := flushMarks cfg b }
     | _ => { dels := b.inputs.map (fun m => (m.level, m.no)), adds := b.out.toList }
   { s with pending := outNo b ++ s.pending, job := upd s.job j { b with edit := e, pc := .ready } }
+
+/-- `family.rollup`: the DeleteRollupFile records of the rollup-done edit log.
+`marks` = `GetLiveRollupFiles()` (file ↦ intervals, here as pairs); `rollupMap[interval]` = the files
+marked for that interval; the loop runs over the target intervals; a target that is skipped (store
+not open) or fails (`CreateFamily` / `doRollupWork` error) `continue`s and contributes nothing.
+`perInterval = true` (the source): inside the loop, `CreateDeleteRollupFile(file, targetInterval)` for the
+files of THAT target. `false` (variant): after the loop, for every file that reached some target,
+`CreateDeleteRollupFile(file, interval)` for ALL `rollupFiles[file]`. -/
+def rollupIntervals (marks : List (Nat × Nat)) : List Nat := dedupNat (marks.map (·.2))
+
+def rollupDels (perInterval : Bool) (marks : List (Nat × Nat)) (ok : List Nat) : List (Nat × Nat) :=
+  (rollupIntervals marks).flatMap fun iv =>
+    if ok.contains iv then
+      let files := (marks.filter (fun p => p.2 == iv)).map (·.1)
+      if perInterval then files.map (fun f => (f, iv))
+      else files.flatMap (fun f => marks.filter (fun p => p.1 == f))
+    else []
+
+/-- `rollupDone` job: the explicit (file, intervals) records of its payload -/
+def payloadPairs (p : Content) : List (Nat × Nat) := p.flatMap (fun kv => kv.2.map (fun iv => (kv.1, iv)))
+
+/-- `family.rollup`, first part: `GetLiveRollupFiles()` (one RLock section: the current version's
+marks), the loop over the targets (work in the TARGET stores; its reads of this family go through
+an ordinary snapshot, i.e. reader actions of this model) and the edit log it builds. -/
+def jRollupStart (cfg : Cfg) (s : St) (j : Nat) : St :=
+  let b := s.job j
+  s.setJob j { b with edit := { rollDel := rollupDels cfg.rollDelPerInterval (s.ver s.cur).rollup (b.payload.map (·.1)) }
+                      pc := .ready }
 
 def setLock (s : St) (l : Option Nat) : St := { s with lock := l }
 
@@ -403,14 +442,14 @@ def doActive (s : St) (j : Nat) : St :=
 /-- `familyVersion.GetLiveRollupFiles()` (RLock: `current.GetRollupFiles()`) -/
 def doRollup (s : St) (j : Nat) : St :=
   let b := s.job j
-  let live := b.live ++ (s.ver s.cur).rollup
+  let live := b.live ++ (s.ver s.cur).rollupFiles
   s.setJob j { b with live := live, todoDel := b.dlist.filter (fun f => !(live.contains f)), pc := .doRolled }
 
 /-- variant `listFirst = false`: `pendingOutputs.Range` is the first thing deleteObsoleteFiles does -/
 def doPendL (s : St) (j : Nat) : St := s.setJob j { s.job j with dlist := [], live := s.pending, pc := .doPended }
 /-- …: `GetLiveRollupFiles()` completes the live set; nothing is listed yet -/
 def doRollupL (s : St) (j : Nat) : St :=
-  s.setJob j { s.job j with live := (s.job j).live ++ (s.ver s.cur).rollup, pc := .doLiveL }
+  s.setJob j { s.job j with live := (s.job j).live ++ (s.ver s.cur).rollupFiles, pc := .doLiveL }
 /-- …: `listDirFunc(familyPath)` AFTER the live set: whatever entered the directory since the
 collections is listed and not live -/
 def doListL (s : St) (j : Nat) : St :=
@@ -442,8 +481,9 @@ def jstep (cfg : Cfg) (s : St) (j : Nat) : Option St :=
           some (if cfg.pendFirst then jAlloc s j b.payload 0 else jAllocU s j b.payload 0)
         else none
       | .compact => if s.compacting then none else some (jStartCompact cfg s j)
-      | .rollupDone => some (s.setJob j { b with edit := { rollDel := b.payload.map (·.1) }, pc := .ready })
+      | .rollupDone => some (s.setJob j { b with edit := { rollDel := payloadPairs b.payload }, pc := .ready })
       | .delObs => some (setPc s j .doStart)
+      | .rollupJob => some (jRollupStart cfg s j)
     | .picked => some (jPicked s j)
     | .reading => some (jRead s j)
     | .merging =>
@@ -471,6 +511,7 @@ def jstep (cfg : Cfg) (s : St) (j : Nat) : Option St :=
     | .cUnlocked =>
       match b.kind with
       | .compact => some (jUnpend s j .closeOwn)
+      | .rollupJob => some (jUnpend s j .doStart)   -- family.rollup's deferred deleteObsoleteFiles
       | _ => some (jUnpend s j .done)
     | .closeOwn => if (s.snap b.snap).st = .opened then some (snapDec (setPc s j .oDecd) b.snap) else none
     | .oDecd =>
@@ -655,13 +696,19 @@ def snapshotCloseShape : List String := ["if(closed-cas)", "version.Release", "c
 def nextFileNumber : List String := ["mutex.Lock", "defer:mutex.Unlock", "nextFileNumber.Inc"]
 /-- `family.rollup` (source side): the `DeleteRollupFile` records of a target are created only after
 that target's `doRollupWork` succeeded; the commit follows the loop; deleteObsoleteFiles is
-deferred. A job whose targets are all absent / failing therefore commits nothing and reduces to
-its deferred deleteObsoleteFiles (the model's `delObs` job); a job whose targets succeeded ends
-with the model's `rollupDone` commit. -/
+deferred: the model's `rollupJob` (`jRollupStart`, the commit steps, then `doStart`…). A job whose
+targets are all absent / failing commits nothing (empty edit log) and reduces to its deferred
+deleteObsoleteFiles. -/
 def rollupJob : List String :=
   ["rolluping.CompareAndSwap", "defer{", "f.deleteObsoleteFiles", "}", "familyVersion.GetLiveRollupFiles",
    "GetStoreManager().GetStoreByName", "targetStore.CreateFamily", "targetFamily.doRollupWork",
    "version.CreateDeleteRollupFile", "f.commitEditLog", "targetFamily.cleanReferenceFiles"]
+/-- `family.rollup`, the loop over the target intervals (what `rollupDels true` mirrors): the records
+`CreateDeleteRollupFile(file, targetInterval)` are created inside the loop, after `doRollupWork` of
+that target (skipped / failing targets `continue` before it), for `file ∈ files = rollupMap[targetInterval]` -/
+def rollupDelShape : List String :=
+  ["for:targetInterval,files=range:rollupMap", "targetFamily.doRollupWork", "for:file=range:files",
+   "CreateDeleteRollupFile(file,targetInterval)", "endfor", "endfor"]
 /-- `family.newTableBuilder`: `jAlloc` (number + pending mark) before `jCreate` (file) -/
 def newTableBuilder : List String := ["store.nextFileNumber", "f.addPendingOutput", "table.NewStoreBuilder"]
 /-- `family.deleteObsoleteFiles`: `doList`, `doPend`, `doActive`, `doRollup`, then `doEvict` before `doRemove` -/
